@@ -16,8 +16,11 @@ THEOREMS = ["Mpir.Numth.fib_table_ok", "Mpir.Numth.fib_table_limits_ok", "Mpir.N
             "Mpir.Numth.factorial_odd_part_mul_two_pow", "Mpir.Numth.fac_ui_structure",
             "Mpir.Numth.oddfac_1_spec_below_dsc", "Mpir.Numth.fac_ui_spec_below_dsc",
             "Mpir.Numth.fac_ui_spec_partial", "Mpir.Numth.two_fac_ui_spec_below_dsc",
-            "Mpir.Numth.two_fac_ui_spec_partial", "Mpir.Numth.remove_spec", "Mpir.Numth.remove_exceptions",
-            "Mpir.Numth.bin_ui_spec", "Mpir.Numth.binom_spec", "Mpir.Numth.bin_uiui_small_spec"]
+            "Mpir.Numth.two_fac_ui_spec_partial", "Mpir.Numth.multiFactorial_spec",
+            "Mpir.Numth.mfac_uiui_small_spec", "Mpir.Numth.primorial_spec", "Mpir.Numth.primorial_ui_small_spec",
+            "Mpir.Numth.remove_spec", "Mpir.Numth.remove_exceptions", "Mpir.Numth.bin_ui_spec",
+            "Mpir.Numth.binom_spec", "Mpir.Numth.bin_uiui_small_spec", "Mpir.Numth.nextprime_pred_sound",
+            "Mpir.Numth.prime_code_pred_sound"]
 GEN = [gen_numth_tabs]
 TRUSTED = ["hand-written value-level models lean/Mpir/Model/Numth.lean (tied by correspondence and a run-time model==spec comparison on every op)",
            "table translator tools/gen_numth_tabs.py (gcc -E -dM / -E -P + a compiled dump program)",
